@@ -129,7 +129,7 @@ def check(case, ctx):
     da = __import__("vp.boot", fromlist=["boot"]).boot()
     sp = case["a"]
     m = model.from_spec(sp)
-    a = gen.build(sp)
+    a = common.build_under_option(sp, ctx.outcomes)
     f, skipna, axis, mode = case["f"], case["skipna"], case["axis"], case["mode"]
     v = m.values
     nd = m.ndim
@@ -173,7 +173,7 @@ def check(case, ctx):
         else:
             fn = lambda: getattr(a, f)(axis=axis, skipna=skipna)
     label += " on %s%s dims=%r nan=%s" % (v.dtype, v.shape, m.dims, case["pat"])
-    res, exc = ctx.call(label, fn, operands=(a,), meta='carry')
+    res, exc = ctx.call(label, fn, operands=(a,), meta='carry', ambient=True)
     allones = bool(keep) and all(v.shape[i] == 1 for i in keep)
     klass = (f, skipna, mode, v.dtype.kind, case["pat"], nd, len(red), allones)
     if mode == 'tuple':
